@@ -30,9 +30,21 @@ def disc_pixels(N):
     return list(zip(rr.tolist(), cc.tolist()))
 
 
+def expand_angles(angles):
+    """An angle set is either an explicit list or, for the large problems, a compact description
+    {"n": A, "mode": "even" | "random", "offset": x, "seed": s}: A angles k*180/A + x (x < 180/A),
+    or A sorted uniform draws from [0, 180)."""
+    if isinstance(angles, dict):
+        A = int(angles["n"])
+        if angles["mode"] == "even":
+            return np.arange(A, dtype=np.float64) * (180.0 / A) + float(angles.get("offset", 0.0))
+        return np.sort(np.random.default_rng(int(angles["seed"])).uniform(0.0, 180.0, A))
+    return np.asarray(angles, dtype=np.float64)
+
+
 def theta_values(angles, dtype):
     """The angle values as the torch side will see them, in float64 (exact)."""
-    a = np.asarray(angles, dtype=np.float64)
+    a = expand_angles(angles)
     if dtype == "float32":
         a = a.astype(np.float32).astype(np.float64)
     return a
